@@ -96,12 +96,14 @@ var fmt = struct{ Errorf func(format string, a ...any) error }{}
 var errors = struct{ New func(text string) error }{}
 var io = struct{ EOF, ErrUnexpectedEOF error }{}
 var strings = struct{ HasSuffix func(s, suffix string) bool }{}
+var hex = struct{ EncodeToString func(src []byte) string }{}
 
 `
 
 // curStubs: the view stubs of the group being translated
 var curStubs string
 var curNilIsEmpty bool
+var curOptPtr bool
 
 // paStubs / paWanted: the protocol adapter's detecting connection (C20) over a SCRIPTED transport.
 // goTransport stands for the embedded net.Conn: the peer is a list of steps, each the most one Read can
@@ -435,6 +437,80 @@ type finishedHash struct {
 }
 ` + viewPrf
 
+// selStubs / selWanted: the server's cipher-suite selection and the resumption decision (C01, C10) over views of
+// the handshake state.  In this group struct pointers held in fields, locals and results are `Option T`
+// (nil = none, a nil dereference = Except.error; receivers and parameters stay plain), the suite table
+// `cipherSuites` (a package-level map) is a PARAMETER `cipherSuites : BitVec 16 → Option cipherSuite` of every
+// definition that indexes it, function values are Lean functions (`hs.cipherSuiteOk` is a closure over hs),
+// `c := hs.c` (never reassigned) stands for hs.c itself, `s != nil` on a []uint16 is the parameter nonNilU16.
+// The session cache is a stub: an association list with a pure Get (the real LRU also moves the entry to the
+// front: C11's subject); sendAlert records the alert and returns it as the error.
+var selWanted = []string{"requiresClientCert", "Config.cipherSuites", "mutualCipherSuite", "selectCipherSuite",
+	"serverHandshakeState.cipherSuiteOk", "serverHandshakeState.pickCipherSuite", "serverHandshakeState.checkForResumption"}
+
+const selStubs = `
+type cipherSuite struct {
+	id    uint16
+	flags int
+}
+var cipherSuites map[uint16]*cipherSuite
+
+type Config struct {
+	CipherSuites []uint16
+	ClientAuth   ClientAuthType
+	SessionCache *goCache
+}
+type goCert struct{}
+type SessionState struct {
+	vers             uint16
+	cipherSuite      uint16
+	peerCertificates []goCert
+}
+type goCacheEntry struct {
+	key   string
+	state *SessionState
+}
+type goCache struct{ entries []goCacheEntry }
+
+func (c *goCache) Get(sessionKey string) (*SessionState, bool) {
+	for _, e := range c.entries {
+		if e.key == sessionKey {
+			return e.state, true
+		}
+	}
+	return nil, false
+}
+
+type Conn struct {
+	config      *Config
+	vers        uint16
+	cipherSuite uint16
+	alerts      []alert
+}
+
+func (c *Conn) sendAlert(a alert) error {
+	c.alerts = append(c.alerts, a)
+	return a
+}
+func (e alert) Error() string { return "" }
+
+type clientHelloMsg struct {
+	sessionId    []byte
+	cipherSuites []uint16
+}
+type serverHandshakeState struct {
+	c            *Conn
+	clientHello  *clientHelloMsg
+	suite        *cipherSuite
+	sessionState *SessionState
+	ecdheOk      bool
+	ecSignOk     bool
+	ecDecryptOk  bool
+	rsaDecryptOk bool
+	rsaSignOk    bool
+}
+`
+
 // negStubs / negWanted: parameter negotiation (C01): version and ALPN selection over a view of Config
 var negWanted = []string{"Config.supportedVersions", "Config.mutualVersion", "negotiateALPN", "checkALPN"}
 
@@ -511,13 +587,16 @@ func (b goCBC) BlockSize() int { return b.blockSize }
 
 // viewStructs: stub structs standing for real ones, with the fields whose type is abstracted
 var viewStructs = map[string]map[string]bool{
-	"finishedHash":       {},
-	"ProtocolDetectConn": {"Conn": true},
-	"Conn":               {},
-	"Config":             {},
-	"halfConn":           {"mac": true},
-	"RetransmitTimer":    {"starts": true},
-	"cipherSuite":        {},
+	"serverHandshakeState": {},
+	"SessionState":         {"peerCertificates": true},
+	"clientHelloMsg":       {},
+	"finishedHash":         {},
+	"ProtocolDetectConn":   {"Conn": true},
+	"Conn":                 {},
+	"Config":               {"SessionCache": true},
+	"halfConn":             {"mac": true},
+	"RetransmitTimer":      {"starts": true},
+	"cipherSuite":          {},
 }
 
 // replacedFuncs: real functions a stub stands for, with the source text (whitespace-normalised) the stub models
@@ -532,7 +611,7 @@ var replacedFuncs = map[string]string{
 }
 
 // viewOptional: stub fields that exist in only one of the packages
-var viewOptional = map[string]bool{"RetransmitTimer.starts": true, "Conn.sent": true, "Conn.writeErrAt": true}
+var viewOptional = map[string]bool{"RetransmitTimer.starts": true, "Conn.sent": true, "Conn.writeErrAt": true, "Conn.alerts": true}
 
 // dynCases: type-switch case types (source text) -> the stub type that stands for them
 var dynCases = map[string]string{"cipher.Stream": "goStream", "cipher.AEAD": "goAEAD", "aead": "goAEAD", "cbcMode": "goCBC"}
@@ -1051,18 +1130,22 @@ type tr struct {
 	byObj   map[types.Object]*fnMeta
 	structs map[string][]field // Lean structure name -> kept fields
 	// per function
-	names   map[types.Object]string
-	used    map[string]int
-	monadic bool // current function is in Except
-	recv    types.Object
-	results []types.Object // named results
-	meta    *fnMeta
-	pre     []string                // statements to emit before the one being translated
-	pkgVars map[types.Object]string // package-level variables emitted as Lean constants
-	tmpN    int
-	loopN   int
-	actN    int // number of checked-helper calls emitted so far (to detect effects in a sub-expression)
-	pkgName string
+	names    map[types.Object]string
+	used     map[string]int
+	monadic  bool // current function is in Except
+	recv     types.Object
+	results  []types.Object // named results
+	meta     *fnMeta
+	pre      []string                // statements to emit before the one being translated
+	pkgVars  map[types.Object]string // package-level variables emitted as Lean constants
+	tmpN     int
+	loopN    int
+	actN     int // number of checked-helper calls emitted so far (to detect effects in a sub-expression)
+	pkgName  string
+	plainPtr map[types.Object]bool     // receiver / parameters of struct pointer type (plain values)
+	ptrSubst map[types.Object]ast.Expr // local `c := hs.c` (never reassigned): c IS hs.c in the translation
+	tabTypes map[string]string
+	tabVars  map[types.Object]string // package-level map variables: parameters of the functions that index them
 }
 
 type field struct {
@@ -1082,6 +1165,7 @@ type fnMeta struct {
 	mutParam   []string     // names of slice parameters written through (returned after the receiver)
 	usesExt    bool         // calls a modelled library function: takes `(ext : Go.Extern)` first
 	usesRx     bool         // calls a modelled record cipher: takes `(rx : Go.RxExtern)` (after ext)
+	usesTabs   []string     // package-level lookup tables (maps) it indexes: leading parameters after ext / rx
 	nonNilPtr  bool         // compares a struct pointer with nil (translated as "not nil")
 	nilIsEmpty bool         // compares a slice with nil (translated as "is empty": see the group)
 	inner      *ast.FuncLit // body is `return func(params) {…}`: translated uncurried (outer ++ inner parameters)
@@ -1168,6 +1252,20 @@ func isErrorType(ty types.Type) bool {
 
 // exprAs: e where a value of type `to` is expected (the implicit conversions to `error`)
 func (t *tr) exprAs(e ast.Expr, to types.Type) string {
+	if curOptPtr && to != nil && isStructPtr(to) {
+		if id, ok := e.(*ast.Ident); ok && id.Name == "nil" {
+			if _, isNil := t.info.Uses[id].(*types.Nil); isNil {
+				return "none"
+			}
+		}
+		if t.isOpt(e) {
+			return t.expr(e)
+		}
+		if u, ok := e.(*ast.UnaryExpr); ok && u.Op == token.AND {
+			return t.expr(e) // already `some`
+		}
+		return "(some " + t.expr(e) + ")"
+	}
 	if id, ok := e.(*ast.Ident); ok && id.Name == "nil" && !isErrorType(to) {
 		if _, isNil := t.info.Uses[id].(*types.Nil); isNil {
 			return t.zero(to)
@@ -1195,6 +1293,108 @@ func (t *tr) exprAs(e ast.Expr, to types.Type) string {
 	}
 	bad("conversion of %s to error", et)
 	return ""
+}
+
+// leanTypePlain: the type of a receiver or parameter: a struct pointer is the struct itself (non-nil)
+func (t *tr) leanTypePlain(ty types.Type) string {
+	s := t.leanType(ty)
+	if curOptPtr && isStructPtr(ty) {
+		return strings.TrimPrefix(s, "Option ")
+	}
+	return s
+}
+
+// isOpt: e is translated to an `Option T` (a struct pointer that is not a receiver / parameter variable)
+func (t *tr) isOpt(e ast.Expr) bool {
+	if !curOptPtr {
+		return false
+	}
+	for {
+		if p, ok := e.(*ast.ParenExpr); ok {
+			e = p.X
+			continue
+		}
+		break
+	}
+	tv, ok := t.info.Types[e]
+	var ty types.Type
+	if ok {
+		ty = tv.Type
+	}
+	if id, isId := e.(*ast.Ident); isId {
+		obj := t.info.Uses[id]
+		if obj == nil {
+			obj = t.info.Defs[id]
+		}
+		if obj == nil {
+			return false
+		}
+		if sub, ok := t.ptrSubst[obj]; ok {
+			return t.isOpt(sub)
+		}
+		ty = obj.Type()
+		if t.plainPtr[obj] {
+			return false
+		}
+	}
+	return ty != nil && isStructPtr(ty)
+}
+
+// plainArg: e where a callee expects a plain value: an Option struct pointer is dereferenced (nil: Except.error),
+// a function value becomes a Lean function
+func (t *tr) plainArg(e ast.Expr) string {
+	if t.isOpt(e) {
+		return t.act("Go.deref " + t.atom(e))
+	}
+	if curOptPtr {
+		if _, isSig := t.typeOfSafe(e).(*types.Signature); isSig {
+			return t.funcValue(e)
+		}
+	}
+	return t.atom(e)
+}
+
+func (t *tr) typeOfSafe(e ast.Expr) types.Type {
+	if tv, ok := t.info.Types[e]; ok && tv.Type != nil {
+		return tv.Type.Underlying()
+	}
+	return nil
+}
+
+// funcValue: a function-typed argument: a translated function, or a method value x.m (a closure over x)
+func (t *tr) funcValue(e ast.Expr) string {
+	switch f := e.(type) {
+	case *ast.Ident:
+		if m := t.byObj[t.info.Uses[f]]; m != nil && !m.panics && !m.mutRecv && len(m.mutParam) == 0 && !m.usesExt && !m.usesRx {
+			return m.leanName
+		}
+		if _, isVar := t.info.Uses[f].(*types.Var); isVar {
+			return t.expr(f)
+		}
+	case *ast.SelectorExpr:
+		if sel := t.info.Selections[f]; sel != nil && sel.Kind() == types.MethodVal {
+			if m := t.byObj[sel.Obj()]; m != nil && !m.panics && !m.mutRecv && len(m.mutParam) == 0 && !m.usesExt && !m.usesRx {
+				s := "(" + m.leanName
+				for _, tb := range m.usesTabs {
+					s += " " + tb
+					t.useTab(tb)
+				}
+				return s + " " + t.plainArg(f.X) + ")"
+			}
+		}
+	}
+	bad("function value %s", t.src(e))
+	return ""
+}
+
+func (t *tr) useTab(name string) {
+	for _, x := range t.meta.usesTabs {
+		if x == name {
+			return
+		}
+	}
+	t.meta.usesTabs = append(t.meta.usesTabs, name)
+	sort.Strings(t.meta.usesTabs)
 }
 
 func (t *tr) leanType(ty types.Type) string {
@@ -1239,6 +1439,18 @@ func (t *tr) leanType(ty types.Type) string {
 		if u.NumMethods() == 0 {
 			return "Dyn"
 		}
+	case *types.Signature:
+		if curOptPtr && u.Results().Len() == 1 && u.Params().Len() >= 1 {
+			s := ""
+			for i := 0; i < u.Params().Len(); i++ {
+				s += t.atomS(t.leanTypePlain(u.Params().At(i).Type())) + " → "
+			}
+			return "(" + s + t.leanType(u.Results().At(0).Type()) + ")"
+		}
+	case *types.Map:
+		if curOptPtr {
+			return "(" + t.atomS(t.leanType(u.Key())) + " → " + t.atomS(t.leanType(u.Elem())) + ")"
+		}
 	case *types.Slice:
 		return "List (" + t.leanType(u.Elem()) + ")"
 	case *types.Array:
@@ -1246,6 +1458,9 @@ func (t *tr) leanType(ty types.Type) string {
 	case *types.Pointer:
 		if n, ok := u.Elem().(*types.Named); ok {
 			if _, ok := n.Underlying().(*types.Struct); ok && n.Obj().Pkg() == t.pkg {
+				if curOptPtr {
+					return "Option " + n.Obj().Name()
+				}
 				return n.Obj().Name()
 			}
 		}
@@ -1334,6 +1549,9 @@ func (t *tr) zero(ty types.Type) string {
 	case *types.Struct:
 		return "{}"
 	case *types.Pointer:
+		if curOptPtr && isStructPtr(ty) {
+			return "none"
+		}
 		return "{}"
 	case *types.Interface:
 		if u.NumMethods() == 0 {
@@ -1487,6 +1705,13 @@ func (t *tr) expr(e ast.Expr) string {
 		if _, ok := obj.(*types.Var); !ok {
 			bad("identifier %s is not a variable", x.Name)
 		}
+		if sub, ok := t.ptrSubst[obj]; ok {
+			return t.expr(sub)
+		}
+		if n, ok := t.tabVars[obj]; ok {
+			t.useTab(n)
+			return n
+		}
 		if n, ok := t.pkgVars[obj]; ok {
 			return n
 		}
@@ -1519,6 +1744,9 @@ func (t *tr) expr(e ast.Expr) string {
 		if !supportedType(t, sel.Obj().Type()) {
 			bad("field %s has a type outside the subset", t.src(x))
 		}
+		if t.isOpt(x.X) {
+			return t.act("Go.deref "+t.atom(x.X)) + "." + sel.Obj().Name()
+		}
 		return t.expr(x.X) + "." + sel.Obj().Name()
 	case *ast.StarExpr:
 		return t.expr(x.X)
@@ -1540,6 +1768,9 @@ func (t *tr) expr(e ast.Expr) string {
 		case token.ADD:
 			return t.expr(x.X)
 		case token.AND:
+			if curOptPtr && isStructPtr(ty) {
+				return "(some " + t.expr(x.X) + ")"
+			}
 			return t.expr(x.X) // &T{...}
 		}
 		bad("unary %s", x.Op)
@@ -1548,6 +1779,9 @@ func (t *tr) expr(e ast.Expr) string {
 	case *ast.CallExpr:
 		return t.call(x)
 	case *ast.IndexExpr:
+		if _, isMap := t.typeOfSafe(x.X).(*types.Map); isMap && curOptPtr {
+			return "(" + t.atom(x.X) + " " + t.atom(x.Index) + ")"
+		}
 		return t.act("Go.idx " + t.atom(x.X) + " " + t.atomS(t.intOf(x.Index)))
 	case *ast.SliceExpr:
 		if x.Slice3 {
@@ -1664,6 +1898,12 @@ func (t *tr) binary(op token.Token, X, Y ast.Expr, resTy types.Type) string {
 					if isHashIface(ot) {
 						return "(" + neg + "Go.Hmac.present " + t.atom(other) + ")"
 					}
+					if isStructPtr(ot) && t.isOpt(other) {
+						if op == token.EQL {
+							return "(" + t.atom(other) + ").isNone"
+						}
+						return "(" + t.atom(other) + ").isSome"
+					}
 					if isStructPtr(ot) {
 						// a structure value stands for a NON-NIL pointer: nil pointers are outside the model
 						t.meta.nonNilPtr = true
@@ -1681,6 +1921,14 @@ func (t *tr) binary(op token.Token, X, Y ast.Expr, resTy types.Type) string {
 							return "(" + t.atom(other) + ").isEmpty"
 						}
 						return "(!(" + t.atom(other) + ").isEmpty)"
+					}
+					if sl, ok := ot.Underlying().(*types.Slice); ok && curOptPtr {
+						if w, _, _ := intKind(sl.Elem()); w == 16 {
+							// nil and empty slices are the same List: the outcome is a parameter of the definition
+							t.tabTypes["nonNilU16"] = "(List (BitVec 16) → Bool)"
+							t.useTab("nonNilU16")
+							return "(" + neg + "nonNilU16 " + t.atom(other) + ")"
+						}
 					}
 					if sl, ok := ot.Underlying().(*types.Slice); ok {
 						if w, _, _ := intKind(sl.Elem()); w == 8 {
@@ -1919,6 +2167,9 @@ func (t *tr) call(c *ast.CallExpr) string {
 				}
 				return t.act("Go.make " + t.atomS(t.zero(st.Elem())) + " " + t.atomS(t.intOf(c.Args[1])))
 			}
+			if id.Name == "new" && curOptPtr && isStructPtr(t.typeOf(c)) {
+				return "(some {})"
+			}
 			bad("builtin %s in expression position", id.Name)
 		}
 	}
@@ -1934,7 +2185,20 @@ func (t *tr) call(c *ast.CallExpr) string {
 	case *ast.SelectorExpr:
 		if sel := t.info.Selections[f]; sel != nil && sel.Kind() == types.MethodVal {
 			callee = t.byObj[sel.Obj()]
-			recvArg = t.atom(f.X)
+			recvArg = t.plainArg(f.X)
+		}
+	}
+	if callee == nil && curOptPtr {
+		if id, ok := c.Fun.(*ast.Ident); ok {
+			if v, isVar := t.info.Uses[id].(*types.Var); isVar {
+				if _, isSig := v.Type().Underlying().(*types.Signature); isSig {
+					s := "(" + t.name(v)
+					for _, a := range c.Args {
+						s += " " + t.plainArg(a)
+					}
+					return s + ")"
+				}
+			}
 		}
 	}
 	if callee == nil {
@@ -1967,11 +2231,15 @@ func (t *tr) call(c *ast.CallExpr) string {
 		s += " rx"
 		t.meta.usesRx = true
 	}
+	for _, tb := range callee.usesTabs {
+		s += " " + tb
+		t.useTab(tb)
+	}
 	if recvArg != "" {
 		s += " " + recvArg
 	}
 	for _, a := range c.Args {
-		s += " " + t.atom(a)
+		s += " " + t.plainArg(a)
 	}
 	if callee.panics {
 		return t.act(s)
@@ -1995,6 +2263,8 @@ func (t *tr) externCall(c *ast.CallExpr) (string, bool) {
 				bad("hmac.New arity")
 			case "subtle.ConstantTimeCompare":
 				return "(Go.constantTimeCompare " + t.atom(c.Args[0]) + " " + t.atom(c.Args[1]) + ")", true
+			case "hex.EncodeToString":
+				return "(Go.hexEncode " + t.atom(c.Args[0]) + ")", true
 			case "strings.HasSuffix":
 				return "(Go.hasSuffix " + t.atom(c.Args[0]) + " " + t.atom(c.Args[1]) + ")", true
 			case "fmt.Errorf", "errors.New":
@@ -2142,6 +2412,10 @@ func (t *tr) assign(o *out, lhs ast.Expr, rhs string) {
 		if obj == nil {
 			obj = t.info.Defs[l]
 		}
+		if sub, isSub := t.ptrSubst[obj]; isSub {
+			t.assign(o, sub, rhs) // c with c := hs.c is hs.c itself
+			return
+		}
 		t.emit(o, "%s := %s", t.name(obj), rhs)
 	case *ast.SelectorExpr:
 		sel := t.info.Selections[l]
@@ -2150,10 +2424,27 @@ func (t *tr) assign(o *out, lhs ast.Expr, rhs string) {
 		}
 		if base, ok := l.X.(*ast.Ident); ok {
 			bobj := t.info.Uses[base]
+			if sub, isSub := t.ptrSubst[bobj]; isSub {
+				// c.f = v with c := hs.c  ==>  hs.c.f = v
+				if t.isOpt(sub) {
+					t.assign(o, sub, "(some { "+t.act("Go.deref "+t.atom(sub))+" with "+sel.Obj().Name()+" := "+rhs+" })")
+				} else {
+					t.assign(o, sub, "{ "+t.expr(sub)+" with "+sel.Obj().Name()+" := "+rhs+" }")
+				}
+				return
+			}
+			if t.isOpt(base) {
+				t.emit(o, "%s := (some { %s with %s := %s })", t.name(bobj), t.act("Go.deref "+t.name(bobj)), sel.Obj().Name(), rhs)
+				return
+			}
 			t.emit(o, "%s := { %s with %s := %s }", t.name(bobj), t.name(bobj), sel.Obj().Name(), rhs)
 			return
 		}
 		// a.b.c = v  ==>  a.b = { a.b with c := v }
+		if t.isOpt(l.X) {
+			t.assign(o, l.X, "(some { "+t.act("Go.deref "+t.atom(l.X))+" with "+sel.Obj().Name()+" := "+rhs+" })")
+			return
+		}
 		t.assign(o, l.X, "{ "+t.expr(l.X)+" with "+sel.Obj().Name()+" := "+rhs+" }")
 	case *ast.IndexExpr:
 		// a[i] = v  with a a variable or a field of a variable
@@ -2394,6 +2685,12 @@ func (t *tr) assignOrDefine(o *out, tok token.Token, lhs ast.Expr, rhs string) {
 		if id.Name == "_" {
 			return
 		}
+		if obj := t.info.Defs[id]; obj != nil {
+			if _, isSub := t.ptrSubst[obj]; isSub {
+				t.emit(o, "-- %s stands for %s from here on (a pointer copy, never reassigned)", id.Name, t.src(t.ptrSubst[obj]))
+				return
+			}
+		}
 		if obj := t.info.Defs[id]; obj != nil { // newly declared here
 			t.emit(o, "let mut %s : %s := %s", t.name(obj), t.leanType(obj.Type()), rhs)
 			return
@@ -2449,11 +2746,15 @@ func (t *tr) procCallR(o *out, callee *fnMeta, recvArg string, args []ast.Expr, 
 		sx += " rx"
 		t.meta.usesRx = true
 	}
+	for _, tb := range callee.usesTabs {
+		sx += " " + tb
+		t.useTab(tb)
+	}
 	if recvArg != "" {
 		sx += " " + recvArg
 	}
 	for _, a := range args {
-		sx += " " + t.atom(a)
+		sx += " " + t.plainArg(a)
 	}
 	if callee.panics {
 		sx = t.act(sx)
@@ -2505,11 +2806,15 @@ func (t *tr) effCall(o *out, c *ast.CallExpr) ([]string, bool) {
 		sx += " rx"
 		t.meta.usesRx = true
 	}
+	for _, tb := range callee.usesTabs {
+		sx += " " + tb
+		t.useTab(tb)
+	}
 	if recv != nil {
-		sx += " " + t.atom(recv)
+		sx += " " + t.plainArg(recv)
 	}
 	for _, a := range c.Args {
-		sx += " " + t.atom(a)
+		sx += " " + t.plainArg(a)
 	}
 	if callee.panics {
 		sx = t.act(sx)
@@ -2538,7 +2843,11 @@ func (t *tr) effCall(o *out, c *ast.CallExpr) ([]string, bool) {
 		if recv == nil {
 			bad("call %s of a receiver-assigning function without a receiver", t.src(c))
 		}
-		t.assign(o, recv, proj(k))
+		if t.isOpt(recv) {
+			t.assign(o, recv, "(some "+proj(k)+")")
+		} else {
+			t.assign(o, recv, proj(k))
+		}
 		k++
 	}
 	names := callee.paramNames()
@@ -2665,7 +2974,7 @@ func (t *tr) callStmt(o *out, c *ast.CallExpr) {
 	// method call for its effect on the receiver
 	if f, ok := c.Fun.(*ast.SelectorExpr); ok {
 		if sel := t.info.Selections[f]; sel != nil && sel.Kind() == types.MethodVal {
-			if callee := t.byObj[sel.Obj()]; callee != nil && !callee.mutRecv && t.procCallR(o, callee, t.atom(f.X), c.Args, c) {
+			if callee := t.byObj[sel.Obj()]; callee != nil && !callee.mutRecv && t.procCallR(o, callee, t.plainArg(f.X), c.Args, c) {
 				return
 			}
 			if callee := t.byObj[sel.Obj()]; callee != nil && callee.mutRecv {
@@ -2678,9 +2987,13 @@ func (t *tr) callStmt(o *out, c *ast.CallExpr) {
 					s += " rx"
 					t.meta.usesRx = true
 				}
-				s += " " + t.atom(f.X)
+				for _, tb := range callee.usesTabs {
+					s += " " + tb
+					t.useTab(tb)
+				}
+				s += " " + t.plainArg(f.X)
 				for _, a := range c.Args {
-					s += " " + t.atom(a)
+					s += " " + t.plainArg(a)
 				}
 				if callee.panics {
 					s = t.act(s)
@@ -2689,6 +3002,9 @@ func (t *tr) callStmt(o *out, c *ast.CallExpr) {
 				}
 				if callee.decl.Type.Results != nil && callee.decl.Type.Results.NumFields() > 0 {
 					s = s + ".1"
+				}
+				if t.isOpt(f.X) {
+					s = "(some " + s + ")"
 				}
 				t.assign(o, f.X, s)
 				return
@@ -3114,6 +3430,29 @@ func (t *tr) switchStmt(o *out, s *ast.SwitchStmt) {
 // ---------------------------------------------------------------------------
 // functions
 
+// copyRoots: top-level `x := a.b.c` definitions of a body: x -> a (a write through x may be a write through a:
+// see findPtrSubst; over-approximate on purpose, the result only decides whether a is handed back)
+func copyRoots(body *ast.BlockStmt) map[string]string {
+	m := map[string]string{}
+	if body == nil {
+		return m
+	}
+	for _, st := range body.List {
+		as, ok := st.(*ast.AssignStmt)
+		if !ok || as.Tok != token.DEFINE || len(as.Lhs) != 1 || len(as.Rhs) != 1 {
+			continue
+		}
+		id, ok := as.Lhs[0].(*ast.Ident)
+		if !ok {
+			continue
+		}
+		if p, ok := pathOf(as.Rhs[0]); ok && strings.Contains(p, ".") {
+			m[id.Name] = rootOf(p)
+		}
+	}
+	return m
+}
+
 func assignsThroughRecv(fd *ast.FuncDecl) bool {
 	if fd.Recv == nil || len(fd.Recv.List) != 1 || len(fd.Recv.List[0].Names) != 1 {
 		return false
@@ -3123,6 +3462,7 @@ func assignsThroughRecv(fd *ast.FuncDecl) bool {
 	}
 	rn := fd.Recv.List[0].Names[0].Name
 	found := false
+	cr := copyRoots(fd.Body)
 	rooted := func(e ast.Expr) bool {
 		for {
 			switch x := e.(type) {
@@ -3137,6 +3477,9 @@ func assignsThroughRecv(fd *ast.FuncDecl) bool {
 			case *ast.ParenExpr:
 				e = x.X
 			case *ast.Ident:
+				if r, ok := cr[x.Name]; ok && r == rn {
+					return true
+				}
 				return x.Name == rn
 			default:
 				return false
@@ -3175,6 +3518,10 @@ func assignsThroughRecv(fd *ast.FuncDecl) bool {
 // handed to a translated callee at a position the callee writes through (byName: metas so far)
 // structPtrWritten: body assigns through the struct pointer `name` or calls a receiver-assigning method on it
 func (t *tr) structPtrWritten(body ast.Node, name string) bool {
+	cr := map[string]string{}
+	if b, ok := body.(*ast.BlockStmt); ok {
+		cr = copyRoots(b)
+	}
 	rooted := func(e ast.Expr) bool {
 		for {
 			switch x := e.(type) {
@@ -3189,6 +3536,9 @@ func (t *tr) structPtrWritten(body ast.Node, name string) bool {
 			case *ast.ParenExpr:
 				e = x.X
 			case *ast.Ident:
+				if r, ok := cr[x.Name]; ok && r == name {
+					return true
+				}
 				return x.Name == name
 			default:
 				return false
@@ -3335,6 +3685,9 @@ func (t *tr) function(m *fnMeta) (text string, err error) {
 	t.pre = nil
 	t.tmpN = 0
 	t.loopN = 0
+	t.plainPtr = map[types.Object]bool{}
+	t.ptrSubst = map[types.Object]ast.Expr{}
+	t.findPtrSubst(m)
 	var params []string
 	var muts []string
 	var snaps []string
@@ -3350,7 +3703,8 @@ func (t *tr) function(m *fnMeta) (text string, err error) {
 	if fd.Recv != nil {
 		rid := fd.Recv.List[0].Names[0]
 		t.recv = t.info.Defs[rid]
-		params = append(params, fmt.Sprintf("(%s : %s)", t.name(t.recv), t.leanType(t.recv.Type())))
+		t.plainPtr[t.recv] = true
+		params = append(params, fmt.Sprintf("(%s : %s)", t.name(t.recv), t.leanTypePlain(t.recv.Type())))
 		if m.mutRecv {
 			muts = append(muts, t.name(t.recv))
 		}
@@ -3362,7 +3716,10 @@ func (t *tr) function(m *fnMeta) (text string, err error) {
 	for _, p := range allParams {
 		for _, nm := range p.Names {
 			obj := t.info.Defs[nm]
-			params = append(params, fmt.Sprintf("(%s : %s)", t.name(obj), t.leanType(obj.Type())))
+			if isStructPtr(obj.Type()) {
+				t.plainPtr[obj] = true
+			}
+			params = append(params, fmt.Sprintf("(%s : %s)", t.name(obj), t.leanTypePlain(obj.Type())))
 			isMutP := false
 			for _, mp := range m.mutParam {
 				if mp == t.name(obj) {
@@ -3379,13 +3736,13 @@ func (t *tr) function(m *fnMeta) (text string, err error) {
 	}
 	var resTypes []string
 	if m.mutRecv {
-		resTypes = append(resTypes, t.leanType(t.recv.Type()))
+		resTypes = append(resTypes, t.leanTypePlain(t.recv.Type()))
 	}
 	for _, p := range allParams {
 		for _, nm := range p.Names {
 			for _, mp := range m.mutParam {
 				if mp == mangle(nm.Name) {
-					resTypes = append(resTypes, t.leanType(t.info.Defs[nm].Type()))
+					resTypes = append(resTypes, t.leanTypePlain(t.info.Defs[nm].Type()))
 				}
 			}
 		}
@@ -3431,6 +3788,13 @@ func (t *tr) function(m *fnMeta) (text string, err error) {
 		}
 		t.emit(o, "return %s", t.retExpr(vals))
 	}
+	if len(m.usesTabs) > 0 {
+		var tp []string
+		for _, tb := range m.usesTabs {
+			tp = append(tp, fmt.Sprintf("(%s : %s)", tb, t.tabTypes[tb]))
+		}
+		params = append(tp, params...)
+	}
 	if m.usesRx {
 		params = append([]string{"(rx : Go.RxExtern)"}, params...)
 	}
@@ -3452,6 +3816,64 @@ func (t *tr) function(m *fnMeta) (text string, err error) {
 	}
 	b.WriteString(o.b.String())
 	return b.String(), nil
+}
+
+// findPtrSubst: top-level `c := <path>` of struct-pointer type, c never assigned again, no prefix of the path
+// assigned as a whole anywhere in the function: c is the same object as the path, so the translation reads and
+// writes the path itself (a copy would lose writes through c)
+func (t *tr) findPtrSubst(m *fnMeta) {
+	body := m.bodyOf()
+	if body == nil {
+		return
+	}
+	for _, st := range body.List {
+		as, ok := st.(*ast.AssignStmt)
+		if !ok || as.Tok != token.DEFINE || len(as.Lhs) != 1 || len(as.Rhs) != 1 {
+			continue
+		}
+		id, ok := as.Lhs[0].(*ast.Ident)
+		if !ok || id.Name == "_" {
+			continue
+		}
+		obj := t.info.Defs[id]
+		if obj == nil || !isStructPtr(obj.Type()) {
+			continue
+		}
+		path, ok := pathOf(as.Rhs[0])
+		if !ok || !strings.Contains(path, ".") {
+			continue
+		}
+		// c assigned only here
+		n := 0
+		ast.Inspect(body, func(nd ast.Node) bool {
+			if a, ok := nd.(*ast.AssignStmt); ok {
+				for _, l := range a.Lhs {
+					if lid, ok := l.(*ast.Ident); ok && (t.info.Uses[lid] == obj || t.info.Defs[lid] == obj) {
+						n++
+					}
+				}
+			}
+			return true
+		})
+		if n != 1 {
+			continue
+		}
+		// no prefix of the path (beyond the root variable) is assigned as a whole
+		bad := false
+		ast.Inspect(body, func(nd ast.Node) bool {
+			if a, ok := nd.(*ast.AssignStmt); ok {
+				for _, l := range a.Lhs {
+					if lp, ok := pathOf(l); ok && (lp == path || strings.HasPrefix(path, lp+".")) {
+						bad = true // a prefix of the path (or its root variable) is assigned as a whole
+					}
+				}
+			}
+			return true
+		})
+		if !bad {
+			t.ptrSubst[obj] = as.Rhs[0]
+		}
+	}
 }
 
 func isStructPtr(ty types.Type) bool {
@@ -3537,6 +3959,9 @@ type group struct {
 	// `s == nil` on a slice is translated as "s is empty" (sound where no empty non-nil slice is ever stored
 	// in the compared variable: stated per group, see paStubs)
 	nilIsEmpty bool
+	// struct pointers held in fields, locals and results are `Option T` (nil = none; a dereference of nil is
+	// Except.error); receivers and parameters stay plain T (non-nil by convention)
+	optPtr bool
 }
 
 func allGroups() []group {
@@ -3548,6 +3973,7 @@ func allGroups() []group {
 		gs = append(gs, group{pkg: name, sub: "neg", stubs: negStubs, funcs: negWanted})
 		gs = append(gs, group{pkg: name, sub: "codec", stubs: cbStubs, funcs: codecWanted[name], nilIsEmpty: true})
 		gs = append(gs, group{pkg: name, sub: "fin", stubs: finStubs, funcs: finWanted})
+		gs = append(gs, group{pkg: name, sub: "sel", stubs: selStubs, funcs: selWanted, optPtr: true})
 	}
 	return gs
 }
@@ -3563,6 +3989,7 @@ func translatePackage(repo string, g group, w *strings.Builder, untranslated *[]
 	wanted := map[string][]string{name: g.funcs}
 	curStubs = g.stubs
 	curNilIsEmpty = g.nilIsEmpty
+	curOptPtr = g.optPtr
 	fail := func(reason string) {
 		for _, fn := range wanted[name] {
 			*untranslated = append(*untranslated, ns+"."+fn)
@@ -3791,43 +4218,84 @@ func translatePackage(repo string, g group, w *strings.Builder, untranslated *[]
 	}
 	// package-level slice variables the functions read (assumed never reassigned: checked below)
 	t.pkgVars = map[types.Object]string{}
+	t.tabVars = map[types.Object]string{}
+	t.tabTypes = map[string]string{}
 	t.pkgName = name
-	for _, dc := range file.Decls {
-		gd, ok := dc.(*ast.GenDecl)
-		if !ok || gd.Tok != token.VAR {
-			continue
-		}
-		for _, sp := range gd.Specs {
-			vs := sp.(*ast.ValueSpec)
-			for i, nm := range vs.Names {
-				if nm.Name == "_" || i >= len(vs.Values) || nm.Name == "hmac" || nm.Name == "sm3" || nm.Name == "sha256" || nm.Name == "subtle" || nm.Name == "rxExtern" || nm.Name == "errOpaque" || nm.Name == "fmt" || nm.Name == "errors" || nm.Name == "io" || nm.Name == "strings" {
-					continue
+	if curOptPtr {
+		for _, dc := range file.Decls {
+			gd, ok := dc.(*ast.GenDecl)
+			if !ok || gd.Tok != token.VAR {
+				continue
+			}
+			for _, sp := range gd.Specs {
+				vs := sp.(*ast.ValueSpec)
+				for _, nm := range vs.Names {
+					obj := info.Defs[nm]
+					if obj == nil {
+						continue
+					}
+					if _, isMap := obj.Type().Underlying().(*types.Map); isMap && len(vs.Values) == 0 {
+						func() {
+							defer func() { recover() }()
+							t.meta = &fnMeta{goName: "var " + nm.Name}
+							t.tabTypes[mangle(nm.Name)] = t.leanType(obj.Type())
+							t.tabVars[obj] = mangle(nm.Name)
+						}()
+					}
 				}
-				obj := info.Defs[nm]
-				func() {
-					defer func() {
-						if r := recover(); r != nil {
-							if u, ok := r.(unsupported); ok {
-								fmt.Fprintf(w, "-- var %s not translated: %s\n\n", nm.Name, u.msg)
-								return
+			}
+		}
+	}
+	varDone := map[types.Object]bool{}
+	for pass := 0; pass < 3; pass++ {
+		for _, dc := range file.Decls {
+			gd, ok := dc.(*ast.GenDecl)
+			if !ok || gd.Tok != token.VAR {
+				continue
+			}
+			for _, sp := range gd.Specs {
+				vs := sp.(*ast.ValueSpec)
+				for i, nm := range vs.Names {
+					if nm.Name == "_" || i >= len(vs.Values) || nm.Name == "hmac" || nm.Name == "sm3" || nm.Name == "sha256" || nm.Name == "subtle" || nm.Name == "rxExtern" || nm.Name == "errOpaque" || nm.Name == "fmt" || nm.Name == "errors" || nm.Name == "io" || nm.Name == "strings" || nm.Name == "hex" {
+						continue
+					}
+					obj := info.Defs[nm]
+					if varDone[obj] {
+						continue
+					}
+					func() {
+						defer func() {
+							if r := recover(); r != nil {
+								if u, ok := r.(unsupported); ok {
+									if pass == 2 {
+										fmt.Fprintf(w, "-- var %s not translated: %s\n\n", nm.Name, u.msg)
+									}
+									return
+								}
+								panic(r)
 							}
-							panic(r)
+						}()
+						t.names = map[types.Object]string{}
+						t.used = map[string]int{}
+						t.meta = &fnMeta{goName: "var " + nm.Name}
+						ty := t.leanType(obj.Type())
+						val := t.expr(vs.Values[i])
+						if strings.Contains(val, "(← ") {
+							// an initialiser that could panic (a slice expression): a panic at package initialisation is
+							// not modelled — the zero value stands for it
+							val = fmt.Sprintf("match (do pure %s : Except String (%s)) with | .ok v => v | .error _ => %s", t.atomS(val), ty, t.zero(obj.Type()))
+						}
+						fmt.Fprintf(w, "/-- translated from `var %s` (package level; no translated function assigns it) -/\ndef %s : %s := %s\n\n", nm.Name, mangle(nm.Name), ty, val)
+						t.pkgVars[obj] = mangle(nm.Name)
+						varDone[obj] = true
+						// inside `def T.name`, a bare `name` would resolve to the method itself
+						for _, m := range metas {
+							if strings.HasSuffix(m.goName, "."+nm.Name) {
+								t.pkgVars[obj] = "_root_.Gotlcp.Src." + ns + "." + mangle(nm.Name)
+							}
 						}
 					}()
-					t.names = map[types.Object]string{}
-					t.used = map[string]int{}
-					t.meta = &fnMeta{goName: "var " + nm.Name}
-					ty := t.leanType(obj.Type())
-					val := t.expr(vs.Values[i])
-					fmt.Fprintf(w, "/-- translated from `var %s` (package level; no translated function assigns it) -/\ndef %s : %s := %s\n\n", nm.Name, mangle(nm.Name), ty, val)
-					t.pkgVars[obj] = mangle(nm.Name)
-					// inside `def T.name`, a bare `name` would resolve to the method itself
-					for _, m := range metas {
-						if strings.HasSuffix(m.goName, "."+nm.Name) {
-							t.pkgVars[obj] = "_root_.Gotlcp.Src." + ns + "." + mangle(nm.Name)
-						}
-					}
-				}()
+				}
 			}
 		}
 	}
@@ -3857,6 +4325,7 @@ func translatePackage(repo string, g group, w *strings.Builder, untranslated *[]
 		m.panics = false
 		m.usesExt = false
 		m.usesRx = false
+		m.usesTabs = nil
 		if _, err := t.function(m); err != nil {
 			*untranslated = append(*untranslated, ns+"."+m.goName)
 			fmt.Fprintf(w, "-- %s not translated: %s\n\n", m.goName, err)
